@@ -1,6 +1,7 @@
 // Harness for the correspondence check: runs the real rssched-solver code on a case file and
 // writes canonical observation lines. Every API call that may panic runs under catch_unwind.
 mod common;
+mod mcf;
 mod net;
 mod ops;
 mod sched;
@@ -40,6 +41,7 @@ fn main() {
         "tour" => tour::run(&case, &mut out),
         "solve" => solve::run(&case, &mut out),
         "trans" => trans::run(&case, &mut out),
+        "mcf" => mcf::run(&case, &mut out),
         "ops" => ops::run(&case, &mut out),
         "lsearch" => search::run_lsearch(&case, &mut out),
         "neigh" => search::run_neigh(&case, &mut out),
